@@ -155,7 +155,7 @@ Lemma In_dposns ws d p : In p (dposns ws d) <-> has ws d p.
 Proof.
   unfold dposns, has. rewrite in_flat_map. split.
   - intros (w & Hw & Hp). apply filter_In in Hw. destruct Hw as [Hw Hk]. apply N.eqb_eq in Hk.
-    apply In_wposns in Hp. exists w. tauto.
+    apply In_wposns in Hp. destruct Hp as [Hb Ht]. exists w. repeat split; auto.
   - intros (w & Hw & Hk & Hb & Ht). exists w. split.
     + apply filter_In. split; [exact Hw|]. apply N.eqb_eq. exact Hk.
     + apply In_wposns. split; [symmetry; exact Hb|exact Ht].
@@ -175,10 +175,20 @@ Proof.
   intros Hf. induction 1 as [|a t Hs IH Hfa]; cbn [map]; constructor; [exact IH|].
   apply Forall_map. eapply Forall_impl; [|exact Hfa]. intros b Hb. apply Hf. exact Hb.
 Qed.
+Lemma Forall_filter' {A} (P : A -> Prop) f l : Forall P l -> Forall P (filter f l).
+Proof. induction 1; cbn [filter]; [constructor|]. destruct (f x); [constructor|]; assumption. Qed.
 Lemma ss_filter (P : N -> bool) l : StronglySorted N.lt l -> StronglySorted N.lt (filter P l).
 Proof.
   induction 1 as [|a t Hs IH Hf]; cbn [filter]; [constructor|].
-  destruct (P a); [|exact IH]. constructor; [exact IH|]. apply Forall_filter. exact Hf.
+  destruct (P a); [|exact IH]. constructor; [exact IH|]. apply Forall_filter'. exact Hf.
+Qed.
+Lemma ss_app' l1 l2 : StronglySorted N.lt l1 -> StronglySorted N.lt l2 ->
+  (forall x y, In x l1 -> In y l2 -> x < y) -> StronglySorted N.lt (l1 ++ l2).
+Proof.
+  induction 1 as [|a t Hs IH Hf]; intros H2 Hlt; cbn [app]; [exact H2|].
+  constructor.
+  - apply IH; [exact H2|]. intros x y Hx Hy. apply Hlt; [now right|exact Hy].
+  - apply Forall_app. split; [exact Hf|]. apply Forall_forall. intros y Hy. apply Hlt; [now left|exact Hy].
 Qed.
 Lemma bits18_sorted : StronglySorted N.lt bits18.
 Proof. repeat (constructor; [|repeat constructor; lia]). constructor. Qed.
@@ -201,7 +211,7 @@ Proof.
   induction ws as [|w ws IH]; intro Hwf; [constructor|].
   rewrite dposns_cons. pose proof (wf_post_cons _ _ Hwf) as Hwf'.
   destruct (N.eqb_spec (key w) d) as [Hk|Hk]; [|apply IH; exact Hwf'].
-  apply ss_app; [apply wposns_sorted|apply IH; exact Hwf'|].
+  apply ss_app'; [apply wposns_sorted|apply IH; exact Hwf'|].
   intros x y Hx Hy. apply In_wposns in Hx. apply In_dposns in Hy.
   destruct Hy as (w' & Hw' & Hk' & Hb' & _). destruct Hx as [Hbx _].
   destruct Hwf as [Hs Hf]. cbn [map] in Hs. inversion Hs as [|? ? _ Hlt]; subst.
@@ -230,14 +240,15 @@ Proof.
     rewrite E, Nat2N.inj_add, <- IH by exact Hlow.
     pose proof (N.div_mod s (2 ^ N.of_nat n) ltac:(lia)) as Hd.
     assert (Hq : s / 2 ^ N.of_nat n < 2) by (apply N.div_lt_upper_bound; lia).
-    assert (Tb : N.testbit s (N.of_nat n) = negb (s / 2 ^ N.of_nat n =? 0)).
-    { rewrite <- (N.add_0_l (N.of_nat n)), <- N.div_pow2_bits.
-      assert (C : s / 2 ^ N.of_nat n = 0 \/ s / 2 ^ N.of_nat n = 1) by lia.
-      destruct C as [C|C]; rewrite C; reflexivity. }
-    rewrite Tb. destruct (N.eqb_spec (s / 2 ^ N.of_nat n) 0) as [C|C]; cbn [negb length].
-    + rewrite C in Hd. rewrite <- Hd at 1. rewrite N.mul_0_r, N.add_0_l. lia.
-    + assert (C1 : s / 2 ^ N.of_nat n = 1) by lia. rewrite C1 in Hd.
-      rewrite Hd at 1. rewrite N.mul_1_r, N.add_comm, popcount_add_pow2 by exact Hlow. lia.
+    assert (Tb0 : N.testbit s (N.of_nat n) = N.testbit (s / 2 ^ N.of_nat n) 0).
+    { rewrite N.div_pow2_bits, N.add_0_l. reflexivity. }
+    rewrite Tb0. clear Tb0 E IH.
+    remember (s / 2 ^ N.of_nat n) as q eqn:Eq. remember (s mod 2 ^ N.of_nat n) as r eqn:Er.
+    remember (2 ^ N.of_nat n) as m eqn:Em. clear Eq Er.
+    assert (C : q = 0 \/ q = 1) by lia. destruct C as [C|C]; subst q; cbn [N.testbit length].
+    + rewrite N.mul_0_r, N.add_0_l in Hd. subst s. symmetry. apply N.add_0_r.
+    + rewrite N.mul_1_r in Hd. subst s. change (N.testbit 1 0) with true. cbn [length].
+      rewrite N.add_comm, Em, popcount_add_pow2 by (rewrite <- Em; exact Hlow). reflexivity.
 Qed.
 
 Lemma popcount_bit_list s : s < 262144 -> popcount s = N.of_nat (length (bit_list s)).
@@ -245,3 +256,200 @@ Proof. intro H. unfold bit_list, bits18. apply (popcount_filter_seq 18). exact H
 
 Lemma length_wposns w : N.of_nat (length (wposns w)) = popcount (lsb w).
 Proof. unfold wposns. rewrite map_length, popcount_bit_list by apply lsb_lt. reflexivity. Qed.
+
+(* ------------------------------------------------------------------ *)
+(* small list facts                                                    *)
+(* ------------------------------------------------------------------ *)
+Lemma mem_n_In v l : mem_n v l = true <-> In v l.
+Proof.
+  unfold mem_n. rewrite existsb_exists. split.
+  - intros (x & Hx & E). apply N.eqb_eq in E. subst x. exact Hx.
+  - intro H. exists v. split; [exact H|apply N.eqb_refl].
+Qed.
+Lemma bool_eq_iff (a b : bool) : (a = true <-> b = true) -> a = b.
+Proof. destruct a, b; intuition congruence. Qed.
+Lemma filter_map_comm {A B} (f : A -> B) (P : B -> bool) l :
+  filter P (map f l) = map f (filter (fun x => P (f x)) l).
+Proof. induction l as [|x l IH]; cbn [map filter]; [reflexivity|]. destruct (P (f x)); cbn [map]; rewrite IH; reflexivity. Qed.
+Lemma filter_filter {A} (P Q : A -> bool) l : filter P (filter Q l) = filter (fun x => Q x && P x) l.
+Proof.
+  induction l as [|x l IH]; cbn [filter]; [reflexivity|].
+  destruct (Q x); cbn [filter andb]; [destruct (P x)|]; rewrite IH; reflexivity.
+Qed.
+
+Lemma mem_wposns r q : mem_n q (wposns r) = (q / 18 =? bucket r) && N.testbit r (q mod 18).
+Proof.
+  apply bool_eq_iff. rewrite mem_n_In, In_wposns, andb_true_iff, N.eqb_eq. tauto.
+Qed.
+
+(* ------------------------------------------------------------------ *)
+(* the in-word case: overlap and continuation words                    *)
+(* ------------------------------------------------------------------ *)
+Definition ov (l r : N) : N := N.land (lsb l) (N.shiftr (lsb r) 1).
+Definition cwR (l r : N) : N := N.lor (N.land (wshl (ov l r) 1) payload_lsb_mask) (hdr r).
+Definition cwL (l r : N) : N := N.lor (ov l r) (hdr l).
+
+Lemma ov_testbit l r i : N.testbit (ov l r) i = (i <? 17) && N.testbit l i && N.testbit r (i + 1).
+Proof.
+  unfold ov. rewrite N.land_spec, N.shiftr_spec by lia. rewrite !lsb_testbit.
+  destruct (N.ltb_spec i 17), (N.ltb_spec i 18), (N.ltb_spec (i + 1) 18); try lia; cbn [andb];
+    rewrite ?andb_false_r; reflexivity.
+Qed.
+Lemma ov_lt l r : ov l r < 131072.
+Proof.
+  change 131072 with (2 ^ 17). apply bits_below_lt. intros i Hi. rewrite ov_testbit in Hi.
+  destruct (N.ltb_spec i 17); [assumption|discriminate].
+Qed.
+
+Lemma cwR_eq l r : r < 18446744073709551616 -> cwR l r = hdr r + 2 * ov l r.
+Proof.
+  intro Hr. unfold cwR. pose proof (ov_lt l r) as Ho.
+  assert (E : N.land (wshl (ov l r) 1) payload_lsb_mask = 2 * ov l r).
+  { unfold wshl. rewrite N.shiftl_mul_pow2, plm_val. change (2 ^ 1) with 2. rewrite W64_val.
+    change 262143 with (N.ones 18). rewrite N.land_ones, pow18.
+    rewrite (N.mod_small (ov l r * 2)) by lia. rewrite N.mod_small by lia. lia. }
+  rewrite E. apply lor_hdr_l; [exact Hr|lia].
+Qed.
+Lemma cwL_eq l r : l < 18446744073709551616 -> cwL l r = hdr l + ov l r.
+Proof. intro Hl. unfold cwL. pose proof (ov_lt l r). apply lor_hdr_l; [exact Hl|lia]. Qed.
+
+Lemma double_testbit a i : N.testbit (2 * a) i = negb (i =? 0) && N.testbit a (i - 1).
+Proof.
+  destruct (N.eqb_spec i 0) as [->|Hi]; cbn [negb andb].
+  - apply N.testbit_even_0.
+  - replace i with (N.succ (i - 1)) at 1 by lia. apply N.double_bits_succ.
+Qed.
+
+(* popcount of the overlap = number of positions p of l, not the last of the word, with p+1 in r *)
+Theorem inner_popcount l r : bucket l = bucket r ->
+  popcount (ov l r) =
+  N.of_nat (length (filter (fun p => negb (p mod 18 =? 17) && mem_n (p + 1) (wposns r)) (wposns l))).
+Proof.
+  intro Hb. pose proof (ov_lt l r) as Ho.
+  unfold wposns at 2. rewrite filter_map_comm, map_length.
+  rewrite popcount_bit_list by lia. unfold bit_list. rewrite filter_filter.
+  f_equal. f_equal. apply filter_ext_in. intros i Hi. apply in_bits18 in Hi.
+  rewrite ov_testbit, lsb_testbit_low, mem_wposns by exact Hi. rewrite <- Hb.
+  destruct (N.ltb_spec i 17) as [H17|H17].
+  - replace ((18 * bucket l + i) mod 18 =? 17) with false by (symmetry; apply N.eqb_neq; lia).
+    replace ((18 * bucket l + i + 1) / 18 =? bucket l) with true by (symmetry; apply N.eqb_eq; lia).
+    replace ((18 * bucket l + i + 1) mod 18) with (i + 1) by lia.
+    cbn [negb andb]. reflexivity.
+  - replace ((18 * bucket l + i) mod 18 =? 17) with true by (symmetry; apply N.eqb_eq; lia).
+    cbn [negb andb]. rewrite andb_false_r. reflexivity.
+Qed.
+
+Lemma inner_filter_sorted (P : N -> bool) (f : N -> N) w : (forall a b, a < b -> f a < f b) ->
+  StronglySorted N.lt (map f (filter P (wposns w))).
+Proof. intro Hf. apply ss_map_mono; [exact Hf|]. apply ss_filter, wposns_sorted. Qed.
+
+(* CR continuation word: the END positions p+1 of the in-word matches *)
+Theorem contCR_wposns l r : l < 18446744073709551616 -> r < 18446744073709551616 -> hdr l = hdr r ->
+  wposns (cwR l r) =
+  map N.succ (filter (fun p => negb (p mod 18 =? 17) && mem_n (p + 1) (wposns r)) (wposns l)).
+Proof.
+  intros Hl Hr Hh. pose proof (ov_lt l r) as Ho.
+  apply (proj1 (hdr_eq_iff l r Hl Hr)) in Hh. destruct Hh as [_ Hb].
+  apply sslt_In_eq; [apply wposns_sorted|apply inner_filter_sorted; intros; lia|].
+  intro q. rewrite In_wposns, in_map_iff, cwR_eq by exact Hr.
+  rewrite mk_bucket by (try exact Hr; lia).
+  assert (Hq : q mod 18 < 18) by (apply N.mod_lt; lia).
+  rewrite mk_testbit by (try exact Hr; try exact Hq; lia).
+  rewrite double_testbit, ov_testbit. split.
+  - intros [Hqb Ht]. apply andb_true_iff in Ht. destruct Ht as [H0 Ht].
+    apply negb_true_iff, N.eqb_neq in H0.
+    apply andb_true_iff in Ht. destruct Ht as [Ht Htr]. apply andb_true_iff in Ht. destruct Ht as [H17 Htl].
+    apply N.ltb_lt in H17.
+    exists (q - 1). split; [lia|]. apply filter_In. split.
+    + apply In_wposns. replace ((q - 1) mod 18) with (q mod 18 - 1) by lia. split; [lia|exact Htl].
+    + rewrite mem_wposns. replace (q - 1 + 1) with q by lia.
+      replace (q mod 18 - 1 + 1) with (q mod 18) in Htr by lia. rewrite Htr.
+      replace ((q - 1) mod 18 =? 17) with false by (symmetry; apply N.eqb_neq; lia).
+      replace (q / 18 =? bucket r) with true by (symmetry; apply N.eqb_eq; lia). reflexivity.
+  - intros (p & <- & Hp). apply filter_In in Hp. destruct Hp as [Hp Hc].
+    apply In_wposns in Hp. destruct Hp as [Hpb Hpt].
+    apply andb_true_iff in Hc. destruct Hc as [H17 Hm]. apply negb_true_iff, N.eqb_neq in H17.
+    rewrite mem_wposns in Hm. apply andb_true_iff in Hm. destruct Hm as [_ Hm].
+    assert (p mod 18 < 18) by (apply N.mod_lt; lia).
+    replace (N.succ p mod 18) with (p mod 18 + 1) by lia.
+    replace (p mod 18 + 1 - 1) with (p mod 18) by lia.
+    replace ((p + 1) mod 18) with (p mod 18 + 1) in Hm by lia.
+    split; [lia|]. rewrite Hpt, Hm.
+    replace (p mod 18 + 1 =? 0) with false by (symmetry; apply N.eqb_neq; lia).
+    replace (p mod 18 <? 17) with true by (symmetry; apply N.ltb_lt; lia). reflexivity.
+Qed.
+
+(* CL continuation word: the START positions p of the in-word matches *)
+Theorem contCL_wposns l r : l < 18446744073709551616 -> r < 18446744073709551616 -> hdr l = hdr r ->
+  wposns (cwL l r) =
+  filter (fun p => negb (p mod 18 =? 17) && mem_n (p + 1) (wposns r)) (wposns l).
+Proof.
+  intros Hl Hr Hh. pose proof (ov_lt l r) as Ho.
+  apply (proj1 (hdr_eq_iff l r Hl Hr)) in Hh. destruct Hh as [_ Hb].
+  apply sslt_In_eq; [apply wposns_sorted|apply ss_filter, wposns_sorted|].
+  intro p. rewrite In_wposns, filter_In, In_wposns, cwL_eq by exact Hl.
+  rewrite mk_bucket by (try exact Hl; lia).
+  assert (Hq : p mod 18 < 18) by (apply N.mod_lt; lia).
+  rewrite mk_testbit by (try exact Hl; try exact Hq; lia).
+  rewrite ov_testbit, mem_wposns. split.
+  - intros [Hpb Ht].
+    apply andb_true_iff in Ht. destruct Ht as [Ht Htr]. apply andb_true_iff in Ht. destruct Ht as [H17 Htl].
+    apply N.ltb_lt in H17. split; [split; assumption|].
+    replace ((p + 1) mod 18) with (p mod 18 + 1) by lia. rewrite Htr.
+    replace (p mod 18 =? 17) with false by (symmetry; apply N.eqb_neq; lia).
+    replace ((p + 1) / 18 =? bucket r) with true by (symmetry; apply N.eqb_eq; lia). reflexivity.
+  - intros [[Hpb Hpt] Hc].
+    apply andb_true_iff in Hc. destruct Hc as [H17 Hm]. apply negb_true_iff, N.eqb_neq in H17.
+    apply andb_true_iff in Hm. destruct Hm as [_ Hm].
+    replace ((p + 1) mod 18) with (p mod 18 + 1) in Hm by lia.
+    split; [exact Hpb|]. rewrite Hpt, Hm.
+    replace (p mod 18 <? 17) with true by (symmetry; apply N.ltb_lt; lia). reflexivity.
+Qed.
+
+(* ------------------------------------------------------------------ *)
+(* the cross-word case: bit 17 of l, bit 0 of the word in the next bucket *)
+(* ------------------------------------------------------------------ *)
+Definition adjtest (p : N * N) : bool :=
+  andb (negb (N.land (fst p) upper_bit =? 0)) (negb (N.land (snd p) 1 =? 0)).
+
+Lemma adjtest_bits p : adjtest p = N.testbit (fst p) 17 && N.testbit (snd p) 0.
+Proof.
+  unfold adjtest. rewrite upper_bit_val.
+  change 131072 with (N.shiftl 1 17). change 1 with (N.shiftl 1 0) at 2.
+  rewrite !land_bit_test. reflexivity.
+Qed.
+
+Theorem cross_match_iff l r : l < 18446744073709551616 -> r < 18446744073709551616 -> bucket l <= 14563 ->
+  hdr r = hdr l + 262144 ->
+  (adjtest (l, r) = true <-> In (18 * bucket l + 17) (wposns l) /\ In (18 * bucket l + 18) (wposns r)).
+Proof.
+  intros Hl Hr Hb Hh. apply (proj1 (hdr_next_iff l r Hl Hr Hb)) in Hh. destruct Hh as [_ Hbr].
+  rewrite adjtest_bits, andb_true_iff, !In_wposns. cbn [fst snd].
+  replace ((18 * bucket l + 17) / 18) with (bucket l) by lia.
+  replace ((18 * bucket l + 17) mod 18) with 17 by lia.
+  replace ((18 * bucket l + 18) / 18) with (bucket l + 1) by lia.
+  replace ((18 * bucket l + 18) mod 18) with 0 by lia. intuition lia.
+Qed.
+
+Theorem adjCR_wposns r : r < 18446744073709551616 -> wposns (N.lor (header_of r) 1) = [18 * bucket r].
+Proof.
+  intro Hr. rewrite header_of_hdr, lor_hdr_r by (try exact Hr; lia).
+  unfold wposns. rewrite mk_lsb, mk_bucket by (try exact Hr; lia).
+  change (bit_list 1) with [0]. cbn [map]. f_equal. lia.
+Qed.
+Theorem adjCL_wposns l : l < 18446744073709551616 ->
+  wposns (N.lor (header_of l) upper_bit) = [18 * bucket l + 17].
+Proof.
+  intro Hl. rewrite upper_bit_val, header_of_hdr, lor_hdr_r by (try exact Hl; lia).
+  unfold wposns. rewrite mk_lsb, mk_bucket by (try exact Hl; lia).
+  change (bit_list 131072) with [17]. reflexivity.
+Qed.
+
+Print Assumptions inner_popcount.
+Print Assumptions contCR_wposns.
+Print Assumptions contCL_wposns.
+Print Assumptions cross_match_iff.
+Print Assumptions adjCR_wposns.
+Print Assumptions adjCL_wposns.
+Print Assumptions dposns_sorted.
+Print Assumptions In_dposns.
